@@ -4,5 +4,6 @@ CONSTANTS
   MaxTamper = 1
   HashModel = "concat"
   PLens = {0}
+  DataLens = {0}
 INVARIANTS AcceptIffUnchanged
 CHECK_DEADLOCK FALSE
